@@ -1,0 +1,108 @@
+//go:build verif
+// +build verif
+
+// Verification harnesses for package buffer (build tag verif only; never part of a normal
+// build). Each harness drives the REAL operations on a vectorised view of up to four
+// chunks with symbolic lengths, offsets and contents, and returns what the contract in
+// contracts_verif.go compares against the plain-byte-string reference. The verifier
+// executes them with the loops of the callee completely unrolled (unwinding assertions
+// discharged), so these are bounded checks: at most 4 chunks, any lengths and bytes.
+
+package buffer
+
+// verifFlat returns byte k of the concatenation of views.
+func verifFlat(views []View, k int) (byte, bool) {
+	if k < 0 {
+		return 0, false
+	}
+	for _, v := range views {
+		if k < len(v) {
+			return v[k], true
+		}
+		k -= len(v)
+	}
+	return 0, false
+}
+
+func verifTotal(views []View) int {
+	size := 0
+	for _, v := range views {
+		size += len(v)
+	}
+	return size
+}
+
+func verifMake(v0, v1, v2, v3 View, n int) VectorisedView {
+	views := []View{v0, v1, v2, v3}[:n]
+	return NewVectorisedView(verifTotal(views), views)
+}
+
+// TrimFront(count) on a byte string s is s[min(max(count,0),len(s)):].
+func verifTrimFront(v0, v1, v2, v3 View, n, count, k int) (got, want byte, okGot, okWant bool, newSize, oldSize int) {
+	vv := verifMake(v0, v1, v2, v3, n)
+	oldSize = vv.size
+	c := count
+	if c < 0 {
+		c = 0
+	}
+	want, okWant = verifFlat(vv.views, k+c)
+	vv.TrimFront(count)
+	got, okGot = verifFlat(vv.views, k)
+	return got, want, okGot, okWant, vv.size, oldSize
+}
+
+// CapLength(length) on a byte string s is s[:min(max(length,0),len(s))].
+func verifCapLength(v0, v1, v2, v3 View, n, length, k int) (got, want byte, okGot, okWant bool, newSize, oldSize int) {
+	vv := verifMake(v0, v1, v2, v3, n)
+	oldSize = vv.size
+	want, okWant = verifFlat(vv.views, k)
+	vv.CapLength(length)
+	got, okGot = verifFlat(vv.views, k)
+	return got, want, okGot, okWant, vv.size, oldSize
+}
+
+// RemoveFirst drops the first chunk.
+func verifRemoveFirst(v0, v1, v2, v3 View, n, k int) (got, want byte, okGot, okWant bool, newSize, oldSize int) {
+	vv := verifMake(v0, v1, v2, v3, n)
+	oldSize = vv.size
+	first := 0
+	if n > 0 {
+		first = len(vv.views[0])
+	}
+	want, okWant = verifFlat(vv.views, k+first)
+	vv.RemoveFirst()
+	got, okGot = verifFlat(vv.views, k)
+	return got, want, okGot, okWant, vv.size, oldSize
+}
+
+// ToView flattens to exactly the concatenation.
+func verifToView(v0, v1, v2, v3 View, n, k int) (got, want byte, okWant bool, flatLen, size int) {
+	vv := verifMake(v0, v1, v2, v3, n)
+	want, okWant = verifFlat(vv.views, k)
+	u := vv.ToView()
+	if k >= 0 && k < len(u) {
+		got = u[k]
+	}
+	return got, want, okWant, len(u), vv.size
+}
+
+// A clone is unaffected by later trimming and capping of the original (and vice versa).
+func verifCloneIndependent(v0, v1, v2, v3 View, n, count, length, k int) (before, after byte, okBefore, okAfter bool, sizeBefore, sizeAfter int) {
+	vv := verifMake(v0, v1, v2, v3, n)
+	c := vv.Clone(nil)
+	before, okBefore = verifFlat(c.views, k)
+	sizeBefore = c.size
+	vv.TrimFront(count)
+	vv.CapLength(length)
+	after, okAfter = verifFlat(c.views, k)
+	return before, after, okBefore, okAfter, sizeBefore, c.size
+}
+
+// The clone has the same bytes as the original.
+func verifCloneSame(v0, v1, v2, v3 View, n, k int) (got, want byte, okGot, okWant bool, cloneSize, size int) {
+	vv := verifMake(v0, v1, v2, v3, n)
+	want, okWant = verifFlat(vv.views, k)
+	c := vv.Clone(nil)
+	got, okGot = verifFlat(c.views, k)
+	return got, want, okGot, okWant, c.size, vv.size
+}
